@@ -48,6 +48,12 @@ for (root, tag, mid), r in rows.items():
     sid = mid.replace("/out2", f"-{tag}b").replace("/out", f"-{tag}a")
     dst = os.path.join(V, "seeded", sid)
     meta = {}
+    # the agent's own meta (summary, what it needs to manifest, commands): from the source directory if it is still
+    # there, else from what an earlier collection stored
+    if not os.path.isdir(src) and os.path.exists(os.path.join(dst, "meta.json")):
+        try:
+            meta = json.load(open(os.path.join(dst, "meta.json"))); meta.pop("verified_by_me", None)
+        except Exception: meta = {}
     if os.path.isdir(src):
         os.makedirs(dst, exist_ok=True)
         for f in ("patch.diff", "mut_demo.rs", "cargo_dev_dep.diff"):
